@@ -166,6 +166,30 @@ def setter_from(F, R, b, name, setter_pat, want_fields, arg_idx=1, root=None, ke
             hit.append(bi)
     R.ob('C19.limits', key or name, bool(hit), '%s: no call of the enforcing setter whose argument derives from %s (found %d setter calls)' % (name, '.'.join(want_fields), len(sites)),
          b.loc(sites[0][0]) if sites else None)
+    # the negotiated value is stored unconditionally: the setter is not skipped on some path to the dispatcher
+    disp = [bi for bi, t in b.calls() if re.search(r'create_dispatcher$|Dispatcher::<.*>::new$|dispatcher::create_dispatcher$|::Dispatcher.*::new$', callee_name(t) or '')]
+    if not disp:
+        # the accept path ends in the Ok(..) result that hands the session to the dispatcher factory
+        disp = [bi for bi, j, s in agg_sites(b, r'^std::result::Result$', 'Ok') if s['lhs']['l'] == 0 and any(bi in b.reachable_after(h) for h in hit)]
+    if hit and disp:
+        # `if let Some(v) = <the negotiated Option> { set(v) }`: the absent edge legitimately leaves the default
+        through = set(hit)
+        for h in hit:
+            for sb in b.dom.get(h, ()):
+                t_ = b.blocks[sb]['term']
+                if t_['k'] != 'switch' or sb == h:
+                    continue
+                p_ = op_place(t_['discr'])
+                for (xb, xs, kind, x) in (b.whole_defs(p_['l']) if p_ else []):
+                    if kind == 'assign' and x['rv']['k'] == 'discr' and (x['rv'].get('ty') or '').startswith('std::option::Option<') and want_fields[-1] in place_fields(x['rv']['place']):
+                        none_t = [tb for v_, tb in t_['targets'] if v_ == 0] or [t_['otherwise']]
+                        some_t = [tb for v_, tb in t_['targets'] if v_ == 1] or [t_['otherwise']]
+                        if none_t[0] != some_t[0]:
+                            through.add(none_t[0])
+        skipped = [d_ for d_ in disp if not b.must_pass(through, d_)]
+        R.ob('C19.limits', (key or name) + '|unconditional', not skipped,
+             '%s: the dispatcher can be created on a path that skips the setter (e.g. the negotiated value is only applied under a condition), so the enforced limit differs from the one announced to the peer' % name,
+             b.loc(hit[0]))
     return hit
 
 
